@@ -14,7 +14,7 @@ import os
 ID = "C12"
 LEVEL = "exploration"
 RULE = (
-    "alphabet of 17 requests (incl. integer / list / numpy-integer spellings of two requests, footprint/dispersion twins on identical geometry and same-shape different-physics pairs) (shapes 9x7 .. 48x40, odd sizes, truncated / over-requested modes, single and double precision, footprint and "
+    "alphabet of 39 requests (17 fixed + a base request with 21 one-argument-at-a-time variants covering every argument of the solver signature; incl. integer / list / numpy-integer spellings of two requests, footprint/dispersion twins on identical geometry and same-shape different-physics pairs) (shapes 9x7 .. 48x40, odd sizes, truncated / over-requested modes, single and double precision, footprint and "
     "dispersion, default / zero / explicit halo, analytic, multi-level); histories of 60 operations drawn from {solve, set NUM_THREADS in "
     "{1,2,4,8}, reset_fft_manager, get_fft_manager(k), fftw_wisdom.pkl dropped / truncated / garbage / foreign, allocation noise}; 16 "
     "history runners execute concurrently (loaded machine).  non-trivial = a solve preceded by a different request, a thread change or a "
@@ -76,11 +76,45 @@ def requests():
     # the same numbers as r4 / r5 given as integers, lists and numpy integers: a pure function of the argument VALUES
     R["r15"] = dict(R["r4"], domain=(100, 112), levels=[np.int64(2), np.int64(8)], modes=[6, 8], halo=0, meas_pt=(30, 48), srf_bg_conc=1.5)
     R["r16"] = dict(R["r5"], domain=[320, 256], levels=np.array([10, 3, 17], dtype=np.int32), modes=(np.int64(40), np.int64(40)), halo=40, meas_pt=(160, 128))
+    # one-argument-at-a-time family: a small base request and, for every argument of the solver signature, a request that
+    # differs from the base in that argument only (state memoised on any proper subset of the arguments mixes one of these pairs)
+    nzv = 7
+    zv = np.linspace(0.25, 5.0, nzv)
+    onev = np.ones(nzv)
+    pv = (2.5 * onev, -1.2 * onev, 0.9 * onev, 0.6 * onev, 0.7 * onev)
+    qv = rng.normal(size=(10, 12))
+    B = dict(srf_flx=qv, z=zv, profiles=pv, domain=(96.0, 110.0), levels=[2, 5], modes=(8, 8), halo=20.0, precision="double",
+             meas_pt=(32.0, 44.0), srf_bg_conc=0.7)
+    R["v0"] = B
+    R["v_flxvals"] = dict(B, srf_flx=rng.normal(size=(10, 12)))
+    R["v_flxshape"] = dict(B, srf_flx=qv.reshape(12, 10).copy())
+    R["v_z"] = dict(B, z=zv * 1.5)
+    R["v_u"] = dict(B, profiles=(pv[0] * 1.4,) + pv[1:])
+    R["v_v"] = dict(B, profiles=(pv[0], pv[1] * -0.5) + pv[2:])
+    R["v_kx"] = dict(B, profiles=pv[:2] + (pv[2] * 2.0,) + pv[3:])
+    R["v_ky"] = dict(B, profiles=pv[:3] + (pv[3] * 2.0, pv[4]))
+    R["v_kz"] = dict(B, profiles=pv[:4] + (pv[4] * 0.6,))
+    R["v_domain_scaled"] = dict(B, domain=(115.2, 132.0))  # same cell, pad and mode counts, other cell size
+    R["v_domain_swapped"] = dict(B, domain=(110.0, 96.0))
+    R["v_levels_order"] = dict(B, levels=[5, 2])
+    R["v_levels_other"] = dict(B, levels=[3, 5])
+    R["v_levels_scalar"] = dict(B, levels=5)
+    R["v_modes"] = dict(B, modes=(6, 8))
+    R["v_halo"] = dict(B, halo=30.0)
+    R["v_halo_none"] = dict(B, halo=None)
+    R["v_measpt"] = dict(B, meas_pt=(40.0, 33.0))
+    R["v_bg"] = dict(B, srf_bg_conc=0.0)
+    R["v_analytic"] = dict(B, analytic=True)
+    R["v_footprint"] = dict(B, footprint=True)
+    R["v_single"] = dict(B, precision="single")
     return R
 
 
-PAIRS = {"r1": "r0", "r3": "r2", "r9": "r8"}  # single -> its double counterpart
+PAIRS = {"r1": "r0", "r3": "r2", "r9": "r8", "v_single": "v0"}  # single -> its double counterpart
 TWINS = {"r11": "r2", "r12": "r5", "r13": "r0", "r14": "r4", "r10": "r0", "r15": "r4", "r16": "r5"}
+VARIANTS = ["v_flxvals", "v_flxshape", "v_z", "v_u", "v_v", "v_kx", "v_ky", "v_kz", "v_domain_scaled", "v_domain_swapped", "v_levels_order",
+            "v_levels_other", "v_levels_scalar", "v_modes", "v_halo", "v_halo_none", "v_measpt", "v_bg", "v_analytic", "v_footprint", "v_single"]
+TWINS.update({v: "v0" for v in VARIANTS})
 SAME_VALUES = {"r15": "r4", "r16": "r5"}  # integer / list / numpy-integer spelling of the same argument values  # same geometry, other mode / other physics
 
 
@@ -103,8 +137,8 @@ FRESH = (
 )
 
 
-def worker_init():
-    """Tabulate the pure function: each request alone in a fresh subprocess, one thread.
+def need(nm):
+    """Tabulate the pure function lazily: request `nm` alone in a fresh subprocess, one thread.
 
     The table is shared by the shards of one run (directory next to the shard directories, one lock per request),
     so every request is solved in exactly one fresh process per run.
@@ -115,30 +149,28 @@ def worker_init():
 
     import numpy as np
 
+    if nm in _table:
+        return
     d = os.path.abspath(os.path.join("..", "c12_fresh_table"))
     os.makedirs(d, exist_ok=True)
-    names = list(requests())
-    k0 = int(os.environ.get("VERIF_SHARD", "0"))
-    order = names[k0 % len(names):] + names[: k0 % len(names)]
-    for nm in order:
-        out = os.path.join(d, nm + ".npz")
-        wd = os.path.join(d, "cwd_" + nm)
-        with open(os.path.join(d, nm + ".lock"), "w") as lk:
-            fcntl.flock(lk, fcntl.LOCK_EX)
-            if not os.path.exists(out):
-                os.makedirs(wd, exist_ok=True)
-                tmp = out + f".{os.getpid()}.tmp.npz"
-                r = subprocess.run([sys.executable, "-c", FRESH, nm, tmp], capture_output=True, text=True, timeout=900, cwd=wd)
-                if r.returncode != 0 or not os.path.exists(tmp):
-                    err = [l for l in r.stderr.splitlines() if "Error" in l and "thread" not in l]
-                    raise RuntimeError(f"fresh-process solve of {nm} failed: {err[-3:]}")
-                os.replace(tmp, out)
-                _table["_fresh_runs"] = _table.get("_fresh_runs", 0) + 1
-        with np.load(out) as z:
-            _table[nm] = (z["c"], z["f"])
-        wis = os.path.join(wd, "fftw_wisdom.pkl")
-        if "_foreign_wisdom" not in _table and os.path.exists(wis):
-            _table["_foreign_wisdom"] = open(wis, "rb").read()
+    out = os.path.join(d, nm + ".npz")
+    wd = os.path.join(d, "cwd_" + nm)
+    with open(os.path.join(d, nm + ".lock"), "w") as lk:
+        fcntl.flock(lk, fcntl.LOCK_EX)
+        if not os.path.exists(out):
+            os.makedirs(wd, exist_ok=True)
+            tmp = out + f".{os.getpid()}.tmp.npz"
+            r = subprocess.run([sys.executable, "-c", FRESH, nm, tmp], capture_output=True, text=True, timeout=900, cwd=wd)
+            if r.returncode != 0 or not os.path.exists(tmp):
+                err = [l for l in r.stderr.splitlines() if "Error" in l and "thread" not in l]
+                raise RuntimeError(f"fresh-process solve of {nm} failed: {err[-3:]}")
+            os.replace(tmp, out)
+            _table["_fresh_runs"] = _table.get("_fresh_runs", 0) + 1
+    with np.load(out) as z:
+        _table[nm] = (z["c"], z["f"])
+    wis = os.path.join(wd, "fftw_wisdom.pkl")
+    if "_foreign_wisdom" not in _table and os.path.exists(wis):
+        _table["_foreign_wisdom"] = open(wis, "rb").read()
 
 
 def state_tuple():
@@ -169,15 +201,20 @@ def run_case(case):
     import bldfm.fft_manager as FM
     from vlib import gen
 
-    if not _table:
-        worker_init()
     rng = gen.rng_for(case["seed"], "C12", case["idx"])
     R = requests()
     names = list(R)
-    pool = [str(x) for x in rng.choice(names, size=int(rng.integers(6, 11)), replace=False)]
+    if case["idx"] % 2:
+        # one-argument-at-a-time histories: the base and 4-7 of its variants plus a few unrelated requests
+        pool = ["v0"] + [str(x) for x in rng.choice(VARIANTS, size=int(rng.integers(4, 8)), replace=False)]
+        pool += [str(x) for x in rng.choice([n for n in names if not n.startswith("v")], size=2, replace=False)]
+    else:
+        pool = [str(x) for x in rng.choice(names, size=int(rng.integers(6, 11)), replace=False)]
     for s_, d_ in list(PAIRS.items()) + list(TWINS.items()):  # keep precision pairs and mode twins together
         if s_ in pool and d_ not in pool:
             pool.append(d_)
+    for nm_ in pool + [SAME_VALUES[x] for x in pool if x in SAME_VALUES]:
+        need(nm_)
     viol, sigs = [], set()
     counters = {"solves": 0, "bitwise_repeats": 0, "cross_thread_comparisons": 0, "fresh_table_comparisons": 0, "precision_pair_comparisons": 0,
                 "thread_changes": 0, "fft_resets": 0, "wisdom_faults": 0, "alloc_noise": 0, "fresh_process_solves": _table.pop("_fresh_runs", 0)}
